@@ -225,6 +225,10 @@ pub struct Knobs {
     pub stdout_tty: bool,
     #[serde(default)]
     pub stdin_tty: bool,
+    /// the process may have at most this many files open at once (RLIMIT_NOFILE minus the
+    /// standard streams); 0 = the usual 1021
+    #[serde(default)]
+    pub fd_limit: u32,
 }
 
 impl Default for Knobs {
@@ -233,6 +237,7 @@ impl Default for Knobs {
             avx2: true,
             stdout_tty: false,
             stdin_tty: false,
+            fd_limit: 0,
         }
     }
 }
